@@ -97,6 +97,9 @@ type dialResult struct {
 	done chan struct{}
 	conn *wsConnection
 	err  error
+	// diallerGone reports that the dialling subscriber's own context had ended when the dial
+	// failed (cancelled or past its deadline): the failure says nothing about the upstream.
+	diallerGone bool
 }
 
 // NewWSTransport creates a new WSTransport. Connections are not closed when ctx
@@ -215,7 +218,7 @@ func (t *WSTransport) getOrDial(ctx context.Context, opts common.Options) (*wsCo
 		}
 
 		if result.err != nil {
-			if ctx.Err() == nil && errors.Is(result.err, context.Canceled) {
+			if ctx.Err() == nil && (result.diallerGone || errors.Is(result.err, context.Canceled)) {
 				// the dialling subscriber went away; that is not our failure: dial again
 				return t.getOrDial(ctx, opts)
 			}
@@ -233,6 +236,7 @@ func (t *WSTransport) getOrDial(ctx context.Context, opts common.Options) (*wsCo
 
 	result.conn = conn
 	result.err = err
+	result.diallerGone = err != nil && ctx.Err() != nil
 	close(result.done)
 
 	t.mu.Lock()
